@@ -71,6 +71,8 @@ impl KeyboardLayout for De105Key {
             KeyCode::Key7 => {
                 if modifiers.is_shifted() {
                     DecodedKey::Unicode('/')
+                } else if modifiers.is_altgr() {
+                    DecodedKey::Unicode('{')
                 } else {
                     DecodedKey::Unicode('7')
                 }
@@ -78,6 +80,8 @@ impl KeyboardLayout for De105Key {
             KeyCode::Key8 => {
                 if modifiers.is_shifted() {
                     DecodedKey::Unicode('(')
+                } else if modifiers.is_altgr() {
+                    DecodedKey::Unicode('[')
                 } else {
                     DecodedKey::Unicode('8')
                 }
@@ -85,6 +89,8 @@ impl KeyboardLayout for De105Key {
             KeyCode::Key9 => {
                 if modifiers.is_shifted() {
                     DecodedKey::Unicode(')')
+                } else if modifiers.is_altgr() {
+                    DecodedKey::Unicode(']')
                 } else {
                     DecodedKey::Unicode('9')
                 }
@@ -92,6 +98,8 @@ impl KeyboardLayout for De105Key {
             KeyCode::Key0 => {
                 if modifiers.is_shifted() {
                     DecodedKey::Unicode('=')
+                } else if modifiers.is_altgr() {
+                    DecodedKey::Unicode('}')
                 } else {
                     DecodedKey::Unicode('0')
                 }
@@ -99,6 +107,8 @@ impl KeyboardLayout for De105Key {
             KeyCode::OemMinus => {
                 if modifiers.is_shifted() {
                     DecodedKey::Unicode('?')
+                } else if modifiers.is_altgr() {
+                    DecodedKey::Unicode('\\')
                 } else {
                     DecodedKey::Unicode('ß')
                 }
